@@ -308,7 +308,22 @@ def run(ck, ix, tier):
                  f"`{norm(bad[0]) if bad else ''}` floors/rounds a rational exponent: the returned monomials need no longer be dimensionless")
     f = ix.func(U, "pi_theorem")
     src = norm(f.node)
-    ck.check("if any((el != 0 for el in rowm))" in src and "continue" in src, "G-PROV", "pi_theorem|only-null-rows", f.loc(), "only rows whose echelon part vanishes are returned", "pi_theorem no longer selects exactly the null rows")
+    # a row contributes a monomial only if every element of its echelon part is 0: the `any(el != 0 ...)` test excludes the
+    # row - as a `continue` guard in the loop or as a (negated) filter of a comprehension
+    from .. import shape as _sh4
+    anys = [c for c in ast.walk(f.node) if isinstance(c, ast.Call) and isinstance(c.func, ast.Name) and c.func.id == "any" and c.args and isinstance(c.args[0], ast.GeneratorExp)
+            and isinstance(c.args[0].elt, ast.Compare) and isinstance(c.args[0].elt.ops[0], ast.NotEq) and norm(c.args[0].elt.comparators[0]) == "0"]
+    okn = False
+    for c in anys:
+        par = getattr(c, "_parent", None)
+        neg = isinstance(par, ast.UnaryOp) and isinstance(par.op, ast.Not)
+        holder = getattr(par, "_parent", None) if neg else par
+        if isinstance(holder, ast.comprehension):
+            okn = okn or neg                                   # [... if not any(el != 0 ...)]
+        elif isinstance(holder, ast.If):
+            side = holder.orelse if neg else holder.body       # statements executed when some element is non-zero
+            okn = okn or any(isinstance(x, ast.Continue) for st in side for x in ast.walk(st))
+    ck.check(okn, "G-PROV", "pi_theorem|only-null-rows", f.loc(), "only rows whose echelon part vanishes are returned", "pi_theorem no longer selects exactly the null rows")
     from .. import memo as _memo
     _memo.rule_quantity_dimensionality_memo(ck, ix)
     _memo.rule_unit_dimensionality_memo(ck, ix)
